@@ -430,6 +430,9 @@ package flows
 //@   ensures[asks-for-the-requested-range-against-the-returned-root] result2 == nil ==> result0 != nil && result0.SP1StarkProof != nil && result1 != nil && proofReqLast == lastProvenBlock && proofReqEnd == toBlock && proofReqRoot == result1.Hash
 //@   ensures[root-is-a-finalized-root] result2 == nil ==> result1.Hash == l1RootHashAt(result1.Index)
 //@   ensures[claims-at-or-below-the-root] result2 == nil ==> forall(k, 0, len(certBuildParams.Claims), gerLeafIndex(certBuildParams.Claims[k].GlobalExitRoot) <= result1.Index)
+// the injected-GER proofs handed to the prover are asked for the same blocks the proof is requested for (the block after
+// the last proven one up to the end of the range) against the same root
+//@   assert call:GetInjectedGERsProofs arg1 == root && arg2 == (lastProvenBlock + 1) % 18446744073709551616 && arg3 == toBlock
 
 // verify, then ask the prover from the last proven block to the end of the range, then record the root the prover was
 // given as the root the claims will be proven against (with its leaf count), and cut the range to what was proven
